@@ -76,7 +76,7 @@ def replay_em_pipeline(r):
     radius, orientation, kernel, n_iter = p["radius"], p["orientation"], p["kernel"], p["n_iter"]
     try:
         est = TokenCooccurrenceVectorizer(window_radii=radius, window_orientations=orientation, kernel_functions=kernel,
-                                          n_iter=n_iter, epsilon=eps, normalize_windows=True)
+                                          n_iter=n_iter, epsilon=eps, normalize_windows=True, n_threads=p.get("n_threads", 1))
         M = est.fit_transform(X).toarray()
     except IndexError as e:
         return {"violation": True, "detail": "IndexError under NUMBA_BOUNDSCHECK=1: %s" % e}
